@@ -503,4 +503,30 @@ Proof.
   - destruct (G B A H2 C2 H1 C1 ltac:(lia)) as [H|Cc]; [left; right; exact H | right; exact Cc].
 Qed.
 
+(* the hash of a prefix under a head is determined, up to a collision *)
+Lemma Forall2_fun_or {A B} (P : A -> B -> Prop) (C : Prop) l l1 l2 :
+  (forall a x y, In a l -> P a x -> P a y -> x = y \/ C) ->
+  Forall2 P l l1 -> Forall2 P l l2 -> l1 = l2 \/ C.
+Proof.
+  intros Hf H1. revert l2. induction H1 as [|a x l l1 Hax H1 IH]; intros l2 H2.
+  - inversion H2; subst. left. reflexivity.
+  - inversion H2 as [|a' y l' l2' Hay H2']; subst.
+    destruct (Hf a x y (or_introl eq_refl) Hax Hay) as [->|Cc]; [|right; exact Cc].
+    destruct (IH (fun a0 x0 y0 Hin => Hf a0 x0 y0 (or_intror Hin)) _ H2') as [->|Cc]; [left; reflexivity | right; exact Cc].
+Qed.
+
+Theorem prefix_hash_unique newer n h h' :
+  hash_of_prefix newer n h -> hash_of_prefix newer n h' -> 0 < n <= 2 ^ 62 -> h = h' \/ coll.
+Proof.
+  intros H1 H2 Hn.
+  destruct (sub_tree_ok 0 n ltac:(lia) ltac:(lia) (aligned_0 n ltac:(lia))) as (bs & Es & HB).
+  apply (prefix_iff_blocks newer n h bs Hn Es HB) in H1. destruct H1 as (hs1 & L1 & F1 & A1).
+  apply (prefix_iff_blocks newer n h' bs Hn Es HB) in H2. destruct H2 as (hs2 & L2 & F2 & A2).
+  assert (E : hs1 = hs2 \/ coll).
+  { eapply Forall2_fun_or; [|exact A1 | exact A2].
+    intros [l a] x y Hin (Hl & _ & Hx) (_ & _ & Hy). cbn [fst snd] in *.
+    eapply node_in_fun; eauto. }
+  destruct E as [->|Cc]; [left; congruence | right; exact Cc].
+Qed.
+
 End Order.
